@@ -76,7 +76,7 @@ def hg_expect(argv, run):
 
 
 def run_tier_b_property(prop, tier, quick_s, thorough_s, drivers, collectors, codegens, make_run, shrink, expect_fn, level_text,
-                        fault_free_share=0.15, extra_cov=None, max_runs=10**9, key_fn=None):
+                        fault_free_share=0.15, extra_cov=None, max_runs=10**9, key_fn=None, write=True):
     t0 = time.time()
     exes = tb.build_executables(drivers, collectors, codegens)
     budget = tier_budget(tier, quick_s, thorough_s)
@@ -182,8 +182,11 @@ def run_tier_b_property(prop, tier, quick_s, thorough_s, drivers, collectors, co
     }
     if extra_cov:
         coverage.update(extra_cov)
-    write_evidence(prop, tier, "exploration", coverage, wall, len(reported), ASSUME_B)
+    if write:
+        write_evidence(prop, tier, "exploration", coverage, wall, len(reported), ASSUME_B)
     log("%s: %d runs (%d fault-free), %d distinct non-trivial, %d violation class(es), %.1fs" % (prop, runs, ff.counters["runs"], coverage["distinct_nontrivial"], len(reported), wall))
+    if not write:
+        return exit_code, coverage, reported
     return exit_code
 
 
@@ -262,10 +265,10 @@ def sync_expect(argv, run):
     return e
 
 
-def c09_tier_b(tier, quick_s=60, thorough_s=1200):
+def c09_tier_b(tier, quick_s=60, thorough_s=1200, write=True):
     return run_tier_b_property(
         "C09", tier, quick_s=quick_s, thorough_s=thorough_s, drivers=["sync"], collectors=["copy", "sweep", "swiper"], codegens=["cannon", "boots"],
-        make_run=sync_run, shrink=sync_shrink, expect_fn=sync_expect,
+        make_run=sync_run, shrink=sync_shrink, expect_fn=sync_expect, write=write,
         level_text="seeded search over generated lock/condition/barrier/queue/join/atomic scripts (schedule-independent expected final state) x collector x code generator x schedule x injected collections that move mutex/condition objects while threads are queued; oracle = model output, in-driver exclusion assertions, deadlock detection (all tasks blocked = lost wake-up), no runtime assertion, M-stw")
 
 
@@ -330,3 +333,74 @@ def ex_key(run, v):
         cls = v[0] if v[0].startswith("trap:") else v[0].split(":")[0]
         return "exhaust:%s:%s:%s" % (run["exe"][2], kind, cls)
     return "exhaust:%s:mode%d:%s" % (run["exe"][2], mode, v[0])
+
+
+def combine(prop, tier, parts, t0, assumptions):
+    """Merge the coverage of a Tier A and a Tier B part into one evidence file."""
+    exit_code = max(p[0] for p in parts)
+    cov = {
+        "evaluations": sum(p[1]["evaluations"] for p in parts),
+        "distinct_nontrivial": sum(p[1]["distinct_nontrivial"] for p in parts),
+        "rule": " || ".join("[%s] %s" % (name, p[1]["rule"]) for name, p in zip(("tier A", "tier B"), parts)),
+        "samples": [s for p in parts for s in p[1]["samples"][:2]],
+        "simulated_runs": sum(p[1]["simulated_runs"] for p in parts),
+        "runs_per_hour": sum(p[1]["runs_per_hour"] for p in parts),
+        "simulated_time_scheduler_steps": sum(p[1]["simulated_time_scheduler_steps"] for p in parts),
+        "fault_kinds_fired": {k: v for p in parts for k, v in p[1]["fault_kinds_fired"].items()},
+        "tier_A": {k: v for k, v in parts[0][1].items() if k not in ("samples", "rule")},
+        "tier_B": {k: v for k, v in parts[1][1].items() if k not in ("samples", "rule")},
+        "violations_reported": [r for p in parts for r in p[2]],
+    }
+    write_evidence(prop, tier, "exploration", cov, time.time() - t0, len(cov["violations_reported"]), assumptions)
+    return exit_code
+
+
+def c09(tier):
+    import tier_a
+    t0 = time.time()
+    a = tier_a.run_tier_a(
+        "C09", "waitq", tier, quick_s=35, thorough_s=600, write=False,
+        level_text="seeded schedules over generated scenarios of critical sections, condition waits/signals, lonely notifications, joins and moving collections",
+        real=["dora-runtime/src/runtime/waitlists.rs (WaitLists, ObjectHashMap incl. rehash on a new GC epoch, visit_roots)",
+              "dora-runtime/src/threads.rs (DoraThread::block / prepare_for_waitlist / set_waitlist_successor / remove_from_waitlist / join / stop, parked_scope)",
+              "dora-runtime/src/safepoint.rs (stop_the_world around the relocation)"],
+        stub=["pkgs/std/thread.dora lock-word protocol transliterated to Rust with every atomic a scheduling point",
+              "mutex / condition objects are fabricated in harness memory; relocation copies them, updates handle slots and wait-table keys (via visit_roots) and bumps the GC epoch"],
+        assumptions=["sequentially consistent interleavings", "at most 6 objects are keyed in the wait table at once (table capacity stays 8)"])
+    b = c09_tier_b(tier, quick_s=60, thorough_s=900, write=False)
+    return combine("C09", tier, [a, b], t0, ASSUME_B + ["Tier A: the lock-word protocol is a Rust transliteration of thread.dora"])
+
+
+def c12_tier_b_run(seed, prop, i, fault_free):
+    """Real parallel marking / evacuation with 1, 2, 4, 8 workers over generated object graphs."""
+    r = hg_run(seed, prop, i, fault_free, collectors=("swiper",), profile=tb.stream(seed, prop, i, "profile").choice(["links", "arrays", "deep", "interior", "mixed"]), max_ops=120)
+    cfg = tb.stream(seed, prop, i, "workers")
+    workers = cfg.choice([1, 2, 2, 4, 8, 8])
+    flags = [f for f in r["dora_flags"].split() if not f.startswith("--gc-worker")] + ["--gc-worker=%d" % workers]
+    if "--gc-verify" not in flags and cfg.random() < 0.7:
+        flags.append("--gc-verify")
+    r["dora_flags"] = " ".join(flags)
+    r["tags"]["workers"] = workers
+    if not fault_free:
+        # collections are the workload here: make sure some are injected
+        r["sim"]["pminor"] = max(r["sim"]["pminor"], 300)
+        r["sim"]["pfull"] = max(r["sim"]["pfull"], 300)
+        tb.cap_fault_rates(r["sim"], len(r["argv"]) * 3, "swiper", r["tags"]["heap_mb"], True)
+    return r
+
+
+def c12(tier):
+    import tier_a
+    t0 = time.time()
+    a = tier_a.run_tier_a(
+        "C12", "term", tier, quick_s=30, thorough_s=600, write=False,
+        level_text="seeded random / sticky / PCT / starvation schedules over generated pool scenarios; sampled, not exhaustive",
+        real=["dora-runtime/src/gc/swiper/terminator.rs (Terminator::new, try_terminate, wake_up) compiled from /repo's working tree"],
+        stub=["work pool: private segment + stealable deque per worker + shared injector, modelled as indivisible steps behind a simulator mutex (crossbeam-deque itself is not simulated)",
+              "worker loop: transliteration of MarkingTask::run / CopyTask::trace_gray_objects (pop, process, publish + wake_up, try_terminate)"],
+        assumptions=["sequentially consistent interleavings only", "parking_lot condvars have no spurious wake-ups", "callers publish before they poll"])
+    b = run_tier_b_property(
+        "C12", tier, quick_s=45, thorough_s=900, drivers=["heapgraph"], collectors=["swiper"], codegens=["cannon", "boots"],
+        make_run=c12_tier_b_run, shrink=hg_shrink, expect_fn=hg_expect, write=False,
+        level_text="real parallel marking (marking.rs) and parallel evacuation (minor.rs) with 1/2/4/8 workers as simulator tasks, real work stealing and termination detection, over generated object graphs; oracle = reference model + gc-verify + deadlock detection")
+    return combine("C12", tier, [a, b], t0, ASSUME_B)
